@@ -1189,3 +1189,517 @@ pub fn corrupt_object(cx: &Corruptor, bytes: &[u8], odd_value: &[u8], cuts: &[u3
 	}
 	Ok(())
 }
+
+// -------------------------------------------------------------------------------------------------
+// (d) NetworkGraph, ProbabilisticScorer, OutputSweeper
+// -------------------------------------------------------------------------------------------------
+
+pub mod aux {
+	use super::*;
+	use bitcoin::constants::ChainHash;
+	use bitcoin::secp256k1::{PublicKey, Secp256k1, SecretKey};
+	use bitcoin::Network;
+	use lightning::ln::msgs::{SocketAddress, UnsignedChannelAnnouncement, UnsignedChannelUpdate, UnsignedNodeAnnouncement};
+	use lightning::routing::gossip::{NetworkGraph, NodeAlias, NodeId};
+	use lightning::routing::router::{CandidateRouteHop, Path, PublicHopCandidate, RouteHop};
+	use lightning::routing::scoring::{ChannelUsage, ProbabilisticScorer, ProbabilisticScoringDecayParameters, ProbabilisticScoringFeeParameters, ScoreLookUp, ScoreUpdate};
+	use lightning::routing::utxo::UtxoLookup;
+	use lightning::types::features::{ChannelFeatures, NodeFeatures};
+	use serde::{Deserialize, Serialize};
+	use std::time::Duration;
+	use vcore::pick;
+
+	pub type Graph = NetworkGraph<&'static TestLogger>;
+
+	#[derive(Clone, Debug, Serialize, Deserialize)]
+	pub enum GossipOp {
+		/// announce a channel between two of the known nodes; `full`: through an (unsigned) channel_announcement,
+		/// otherwise through the partial-announcement path used by rapid gossip sync
+		Announce { a: u8, b: u8, scid: u32, capacity_sat: Option<u64>, full: bool, excess: Vec<u8> },
+		Update { chan: u16, dir: bool, ts: u32, disabled: bool, cltv: u16, min: u64, max: u64, base: u32, ppm: u32, excess: Vec<u8> },
+		NodeAnn { node: u8, ts: u32, alias: Vec<u8>, rgb: [u8; 3], addrs: Vec<(u8, [u8; 16], u16)>, excess: Vec<u8> },
+		FailChannel { chan: u16 },
+		FailNode { node: u8 },
+		Stale { now: u32 },
+		RgsTimestamp(u32),
+	}
+
+	#[derive(Clone, Debug, Serialize, Deserialize)]
+	pub struct PathSpec {
+		pub start: u16,
+		pub hops: Vec<u16>,
+		pub amount_msat: u64,
+	}
+
+	#[derive(Clone, Debug, Serialize, Deserialize)]
+	pub enum ScoreOp {
+		Failed { path: PathSpec, at: u8, dt: u32 },
+		Success { path: PathSpec, dt: u32 },
+		ProbeFailed { path: PathSpec, at: u8, dt: u32 },
+		ProbeSuccess { path: PathSpec, dt: u32 },
+		TimePassed { dt: u32 },
+	}
+
+	#[derive(Clone, Debug, Serialize, Deserialize)]
+	pub struct Query {
+		pub chan: u16,
+		pub dir: bool,
+		pub amount_msat: u64,
+		pub inflight_msat: u64,
+	}
+
+	#[derive(Clone, Debug, Serialize, Deserialize)]
+	pub struct FeeParams {
+		pub base: u64,
+		pub base_amt_mult: u64,
+		pub liq_mult: u64,
+		pub liq_amt_mult: u64,
+		pub hist_mult: u64,
+		pub hist_amt_mult: u64,
+		pub anti_probing: u64,
+		pub impossible: u64,
+		pub linear: bool,
+		pub probing_diversity: u64,
+	}
+
+	impl FeeParams {
+		pub fn build(&self, with_probing_diversity: bool) -> ProbabilisticScoringFeeParameters {
+			let mut p = ProbabilisticScoringFeeParameters::default();
+			p.base_penalty_msat = self.base;
+			p.base_penalty_amount_multiplier_msat = self.base_amt_mult;
+			p.liquidity_penalty_multiplier_msat = self.liq_mult;
+			p.liquidity_penalty_amount_multiplier_msat = self.liq_amt_mult;
+			p.historical_liquidity_penalty_multiplier_msat = self.hist_mult;
+			p.historical_liquidity_penalty_amount_multiplier_msat = self.hist_amt_mult;
+			p.anti_probing_penalty_msat = self.anti_probing;
+			p.considered_impossible_penalty_msat = self.impossible;
+			p.linear_success_probability = self.linear;
+			p.probing_diversity_penalty_msat = if with_probing_diversity { self.probing_diversity } else { 0 };
+			p
+		}
+	}
+
+	pub fn node_key(seed: u8) -> PublicKey {
+		let secp = Secp256k1::new();
+		let mut sk = [0x42u8; 32];
+		sk[31] = seed;
+		sk[0] = 1;
+		PublicKey::from_secret_key(&secp, &SecretKey::from_slice(&sk).unwrap())
+	}
+
+	struct FixedUtxo {
+		value_sat: u64,
+		spk: bitcoin::ScriptBuf,
+	}
+	impl UtxoLookup for FixedUtxo {
+		fn get_utxo(&self, _: &ChainHash, _: u64, _: std::sync::Arc<lightning::util::wakers::Notifier>) -> lightning::routing::utxo::UtxoResult {
+			lightning::routing::utxo::UtxoResult::Sync(Ok(bitcoin::TxOut { value: bitcoin::Amount::from_sat(self.value_sat), script_pubkey: self.spk.clone() }))
+		}
+	}
+
+	/// The channels known to the harness: (scid, node a, node b)
+	pub struct GraphModel {
+		pub nodes: Vec<PublicKey>,
+		pub chans: Vec<(u64, usize, usize)>,
+		pub applied: u64,
+		pub rejected: u64,
+	}
+
+	pub fn apply_gossip(g: &Graph, m: &mut GraphModel, op: &GossipOp) {
+		let chain_hash = ChainHash::using_genesis_block(Network::Testnet);
+		let ok = match op {
+			GossipOp::Announce { a, b, scid, capacity_sat, full, excess } => {
+				let ia = pick((*a as u16) << 8, m.nodes.len());
+				let mut ib = pick((*b as u16) << 8, m.nodes.len());
+				if ia == ib {
+					ib = (ib + 1) % m.nodes.len();
+				}
+				let (n1, n2) = (NodeId::from_pubkey(&m.nodes[ia]), NodeId::from_pubkey(&m.nodes[ib]));
+				let (i1, i2, n1, n2) = if n1 < n2 { (ia, ib, n1, n2) } else { (ib, ia, n2, n1) };
+				// block 200+ so that it cannot collide with the world's own channels
+				let scid = ((200 + (*scid as u64 >> 12)) << 40) | (((*scid as u64) & 0xfff) << 16);
+				if m.chans.iter().any(|c| c.0 == scid) {
+					false
+				} else {
+					let r = if *full {
+						let k1 = node_key(200 + i1 as u8);
+						let k2 = node_key(220 + i2 as u8);
+						let msg = UnsignedChannelAnnouncement {
+							features: ChannelFeatures::empty(),
+							chain_hash,
+							short_channel_id: scid,
+							node_id_1: n1,
+							node_id_2: n2,
+							bitcoin_key_1: NodeId::from_pubkey(&k1),
+							bitcoin_key_2: NodeId::from_pubkey(&k2),
+							excess_data: excess.clone(),
+						};
+						match capacity_sat {
+							Some(v) => {
+								let spk = lightning::ln::chan_utils::make_funding_redeemscript(&k1, &k2).to_p2wsh();
+								g.update_channel_from_unsigned_announcement(&msg, &Some(&FixedUtxo { value_sat: *v, spk })).is_ok()
+							},
+							None => g.update_channel_from_unsigned_announcement::<&FixedUtxo>(&msg, &None).is_ok(),
+						}
+					} else {
+						g.add_channel_from_partial_announcement(scid, *capacity_sat, 1_700_000_000, ChannelFeatures::empty(), n1, n2).is_ok()
+					};
+					if r {
+						m.chans.push((scid, i1, i2));
+					}
+					r
+				}
+			},
+			GossipOp::Update { chan, dir, ts, disabled, cltv, min, max, base, ppm, excess } => {
+				if m.chans.is_empty() {
+					false
+				} else {
+					let c = m.chans[pick(*chan, m.chans.len())];
+					let msg = UnsignedChannelUpdate {
+						chain_hash,
+						short_channel_id: c.0,
+						timestamp: 1_700_000_000 + *ts,
+						message_flags: 1,
+						channel_flags: (*dir as u8) | ((*disabled as u8) << 1),
+						cltv_expiry_delta: *cltv,
+						htlc_minimum_msat: *min,
+						htlc_maximum_msat: *max,
+						fee_base_msat: *base,
+						fee_proportional_millionths: *ppm,
+						excess_data: excess.clone(),
+					};
+					g.update_channel_unsigned(&msg).is_ok()
+				}
+			},
+			GossipOp::NodeAnn { node, ts, alias, rgb, addrs, excess } => {
+				let i = pick((*node as u16) << 8, m.nodes.len());
+				let mut al = [0u8; 32];
+				for (k, b) in alias.iter().take(32).enumerate() {
+					al[k] = *b;
+				}
+				let addresses = addrs
+					.iter()
+					.map(|(kind, data, port)| match kind % 5 {
+						0 => SocketAddress::TcpIpV4 { addr: [data[0], data[1], data[2], data[3]], port: *port },
+						1 => SocketAddress::TcpIpV6 { addr: *data, port: *port },
+						2 => SocketAddress::OnionV2(data[..12].try_into().unwrap()),
+						3 => {
+							let mut k = [0u8; 32];
+							k[..16].copy_from_slice(data);
+							SocketAddress::OnionV3 { ed25519_pubkey: k, checksum: *port, version: data[0], port: *port }
+						},
+						_ => SocketAddress::Hostname { hostname: lightning::util::ser::Hostname::try_from(format!("h{}.example", data[0])).unwrap(), port: *port },
+					})
+					.collect();
+				let msg = UnsignedNodeAnnouncement {
+					features: NodeFeatures::empty(),
+					timestamp: 1_700_000_000 + *ts,
+					node_id: NodeId::from_pubkey(&m.nodes[i]),
+					rgb: *rgb,
+					alias: NodeAlias(al),
+					addresses,
+					excess_address_data: vec![],
+					excess_data: excess.clone(),
+				};
+				g.update_node_from_unsigned_announcement(&msg).is_ok()
+			},
+			GossipOp::FailChannel { chan } => {
+				if m.chans.is_empty() {
+					false
+				} else {
+					let i = pick(*chan, m.chans.len());
+					g.channel_failed_permanent(m.chans[i].0);
+					m.chans.remove(i);
+					true
+				}
+			},
+			GossipOp::FailNode { node } => {
+				let i = pick((*node as u16) << 8, m.nodes.len());
+				g.node_failed_permanent(&m.nodes[i]);
+				m.chans.retain(|c| c.1 != i && c.2 != i);
+				true
+			},
+			GossipOp::Stale { now } => {
+				g.remove_stale_channels_and_tracking_with_time(1_700_000_000 + *now as u64);
+				let ro = g.read_only();
+				m.chans.retain(|c| ro.channel(c.0).is_some());
+				true
+			},
+			GossipOp::RgsTimestamp(t) => {
+				g.set_last_rapid_gossip_sync_timestamp(*t);
+				true
+			},
+		};
+		if ok {
+			m.applied += 1;
+		} else {
+			m.rejected += 1;
+		}
+	}
+
+	/// Announce the world's channels (real node ids, funding keys, scids, capacities) and both directions'
+	/// forwarding policies to `g`.
+	pub fn world_channels_into_graph(sim: &Sim, g: &Graph, m: &mut GraphModel) {
+		let chain_hash = ChainHash::using_genesis_block(Network::Testnet);
+		for (ci, c) in sim.chans.iter().enumerate() {
+			let (ka, kb) = (c.open.common_fields.funding_pubkey, c.accept.common_fields.funding_pubkey);
+			let (na, nb) = (NodeId::from_pubkey(&sim.w.node_id(c.a)), NodeId::from_pubkey(&sim.w.node_id(c.b)));
+			let a_first = na < nb;
+			let msg = UnsignedChannelAnnouncement {
+				features: ChannelFeatures::empty(),
+				chain_hash,
+				short_channel_id: c.scid,
+				node_id_1: if a_first { na } else { nb },
+				node_id_2: if a_first { nb } else { na },
+				bitcoin_key_1: NodeId::from_pubkey(if a_first { &ka } else { &kb }),
+				bitcoin_key_2: NodeId::from_pubkey(if a_first { &kb } else { &ka }),
+				excess_data: vec![],
+			};
+			let spk = lightning::ln::chan_utils::make_funding_redeemscript(&ka, &kb).to_p2wsh();
+			if g.update_channel_from_unsigned_announcement(&msg, &Some(&FixedUtxo { value_sat: c.value_sat, spk })).is_err() {
+				continue;
+			}
+			m.chans.push((c.scid, if a_first { c.a } else { c.b }, if a_first { c.b } else { c.a }));
+			for (me, from_one) in [(c.a, a_first), (c.b, !a_first)] {
+				if let Some(d) = sim.chan_details(me, ci) {
+					if let Some(cfg) = d.config {
+						let upd = UnsignedChannelUpdate {
+							chain_hash,
+							short_channel_id: c.scid,
+							timestamp: 1_700_000_000,
+							message_flags: 1,
+							channel_flags: if from_one { 0 } else { 1 },
+							cltv_expiry_delta: cfg.cltv_expiry_delta,
+							htlc_minimum_msat: d.inbound_htlc_minimum_msat.unwrap_or(1),
+							htlc_maximum_msat: d.inbound_htlc_maximum_msat.unwrap_or(c.value_sat * 1000),
+							fee_base_msat: cfg.forwarding_fee_base_msat,
+							fee_proportional_millionths: cfg.forwarding_fee_proportional_millionths,
+							excess_data: vec![],
+						};
+						let _ = g.update_channel_unsigned(&upd);
+					}
+				}
+			}
+		}
+	}
+
+	/// Build a connected path over the model's channels.
+	pub fn build_path(m: &GraphModel, spec: &PathSpec) -> Option<Path> {
+		if m.chans.is_empty() {
+			return None;
+		}
+		let first = m.chans[pick(spec.start, m.chans.len())];
+		let mut cur = if spec.start & 1 == 0 { first.1 } else { first.2 };
+		let mut hops = vec![];
+		let mut next_chan = Some(first);
+		let mut k = 0;
+		while let Some(c) = next_chan {
+			let to = if c.1 == cur { c.2 } else { c.1 };
+			hops.push(RouteHop {
+				pubkey: m.nodes[to],
+				node_features: NodeFeatures::empty(),
+				short_channel_id: c.0,
+				channel_features: ChannelFeatures::empty(),
+				fee_msat: 1000,
+				cltv_expiry_delta: 40,
+				maybe_announced_channel: true,
+			});
+			cur = to;
+			next_chan = None;
+			if let Some(h) = spec.hops.get(k) {
+				let adj: Vec<(u64, usize, usize)> = m.chans.iter().cloned().filter(|x| (x.1 == cur || x.2 == cur) && x.0 != c.0).collect();
+				if !adj.is_empty() {
+					next_chan = Some(adj[pick(*h, adj.len())]);
+				}
+			}
+			k += 1;
+		}
+		hops.last_mut().unwrap().fee_msat = spec.amount_msat;
+		Some(Path { hops, blinded_tail: None })
+	}
+
+	/// Canonical form of a serialized scorer: `HashMap<u64, ChannelLiquidity>` entries sorted by key (each value
+	/// is a length-prefixed TLV stream). None if the bytes do not have that shape.
+	pub fn canonical_scorer_bytes(b: &[u8]) -> Option<Vec<u8>> {
+		// ChannelLiquidities: a TLV stream with the single record (0, HashMap<u64, ChannelLiquidity>); the map is
+		// a u16 count followed by (u64 key, length-prefixed TLV stream) entries in hash-map order.
+		let (total, n0) = read_bigsize(b, 0)?;
+		if n0 as u64 + total != b.len() as u64 {
+			return None;
+		}
+		let (typ, n1) = read_bigsize(b, n0)?;
+		let (l, n2) = read_bigsize(b, n0 + n1)?;
+		let start = n0 + n1 + n2;
+		if typ != 0 || start as u64 + l != b.len() as u64 {
+			return None;
+		}
+		let n = u16::from_be_bytes(b.get(start..start + 2)?.try_into().ok()?) as usize;
+		let mut pos = start + 2;
+		let mut entries: Vec<(u64, &[u8])> = vec![];
+		for _ in 0..n {
+			let key = u64::from_be_bytes(b.get(pos..pos + 8)?.try_into().ok()?);
+			let (l, ln) = read_bigsize(b, pos + 8)?;
+			let end = pos + 8 + ln + l as usize;
+			entries.push((key, b.get(pos..end)?));
+			pos = end;
+		}
+		if pos != b.len() {
+			return None;
+		}
+		entries.sort_by_key(|e| e.0);
+		let mut out = b[..start + 2].to_vec();
+		for (_, e) in entries {
+			out.extend_from_slice(e);
+		}
+		Some(out)
+	}
+
+	pub fn scorer_entry_count(b: &[u8]) -> u64 {
+		(|| {
+			let (_, n0) = read_bigsize(b, 0)?;
+			let (_, n1) = read_bigsize(b, n0)?;
+			let (_, n2) = read_bigsize(b, n0 + n1)?;
+			let start = n0 + n1 + n2;
+			Some(u16::from_be_bytes(b.get(start..start + 2)?.try_into().ok()?) as u64)
+		})()
+		.unwrap_or(0)
+	}
+
+	pub struct ScorerResult {
+		pub entries: u64,
+		pub nonempty_buckets: bool,
+		pub queries: u64,
+		pub nonzero_penalties: u64,
+	}
+
+	/// Scorer oracle: after the generated updates, write -> read -> write is byte-stable up to hash-map entry
+	/// order, and the re-read scorer answers every query like the original, now and after further updates.
+	pub fn scorer_oracle(g: &'static Graph, logger: &'static TestLogger, m: &GraphModel, decay: (u64, u64), ops: &[ScoreOp], queries: &[Query], fee: &FeeParams, tail: &[ScoreOp]) -> Result<ScorerResult, Failure> {
+		let decay_params = ProbabilisticScoringDecayParameters { historical_no_updates_half_life: Duration::from_secs(decay.0), liquidity_offset_half_life: Duration::from_secs(decay.1) };
+		let mut scorer = ProbabilisticScorer::new(decay_params, g, logger);
+		let mut now = Duration::from_secs(1_700_000_000);
+		let apply = |s: &mut ProbabilisticScorer<&'static Graph, &'static TestLogger>, op: &ScoreOp, now: &mut Duration| {
+			let failed_scid = |p: &Path, at: u8| p.hops[pick((at as u16) << 8, p.hops.len())].short_channel_id;
+			match op {
+				ScoreOp::Failed { path, at, dt } => {
+					*now += Duration::from_secs(*dt as u64);
+					if let Some(p) = build_path(m, path) {
+						s.payment_path_failed(&p, failed_scid(&p, *at), *now);
+					}
+				},
+				ScoreOp::Success { path, dt } => {
+					*now += Duration::from_secs(*dt as u64);
+					if let Some(p) = build_path(m, path) {
+						s.payment_path_successful(&p, *now);
+					}
+				},
+				ScoreOp::ProbeFailed { path, at, dt } => {
+					*now += Duration::from_secs(*dt as u64);
+					if let Some(p) = build_path(m, path) {
+						s.probe_failed(&p, failed_scid(&p, *at), *now);
+					}
+				},
+				ScoreOp::ProbeSuccess { path, dt } => {
+					*now += Duration::from_secs(*dt as u64);
+					if let Some(p) = build_path(m, path) {
+						s.probe_successful(&p, *now);
+					}
+				},
+				ScoreOp::TimePassed { dt } => {
+					*now += Duration::from_secs(*dt as u64);
+					s.time_passed(*now);
+				},
+			}
+		};
+		for op in ops {
+			apply(&mut scorer, op, &mut now);
+		}
+		let b1 = scorer.encode();
+		let mut r = &b1[..];
+		let mut reread = <ProbabilisticScorer<&'static Graph, &'static TestLogger>>::read(&mut r, (decay_params, g, logger)).map_err(|e| fail("scorer-read", "scorer-read".into(), format!("{:?}", e)))?;
+		if !r.is_empty() {
+			return Err(fail("scorer-read", "scorer-read/trailing".into(), format!("{} bytes unread", r.len())));
+		}
+		let b2 = reread.encode();
+		let (c1, c2) = (canonical_scorer_bytes(&b1), canonical_scorer_bytes(&b2));
+		if c1.is_none() || c1 != c2 {
+			return Err(fail("scorer-reencode", "scorer-reencode".into(), format!("write(read(write(s))) differs from write(s) (entries sorted by channel): {} vs {} bytes", b2.len(), b1.len())));
+		}
+		let entries = scorer_entry_count(&b1);
+		let mut res = ScorerResult { entries, nonempty_buckets: false, queries: 0, nonzero_penalties: 0 };
+		let ro = g.read_only();
+		let mut battery = |a: &ProbabilisticScorer<&'static Graph, &'static TestLogger>, b: &ProbabilisticScorer<&'static Graph, &'static TestLogger>, params: &ProbabilisticScoringFeeParameters, what: &str, res: &mut ScorerResult| -> Result<(), Failure> {
+			for q in queries {
+				if m.chans.is_empty() {
+					break;
+				}
+				let c = m.chans[pick(q.chan, m.chans.len())];
+				let Some(info) = ro.channel(c.0) else { continue };
+				let target = NodeId::from_pubkey(&m.nodes[if q.dir { c.1 } else { c.2 }]);
+				// the public read-outs of the per-channel state
+				let (ra, rb) = (a.estimated_channel_liquidity_range(c.0, &target), b.estimated_channel_liquidity_range(c.0, &target));
+				if ra != rb {
+					return Err(fail("scorer-answers", "scorer-answers/liquidity-range".into(), format!("{}: estimated_channel_liquidity_range({}) {:?} vs {:?}", what, c.0, ra, rb)));
+				}
+				let (ha, hb) = (a.historical_estimated_channel_liquidity_probabilities(c.0, &target), b.historical_estimated_channel_liquidity_probabilities(c.0, &target));
+				if ha != hb {
+					return Err(fail("scorer-answers", "scorer-answers/historical-buckets".into(), format!("{}: historical buckets of {} differ: {:?} vs {:?}", what, c.0, ha, hb)));
+				}
+				if let Some((min, max)) = ha {
+					if min.iter().chain(max.iter()).any(|x| *x != 0) {
+						res.nonempty_buckets = true;
+					}
+				}
+				let Some((dir, _)) = info.as_directed_to(&target) else { continue };
+				let usage = ChannelUsage { amount_msat: q.amount_msat, inflight_htlc_msat: q.inflight_msat, effective_capacity: dir.effective_capacity() };
+				let cand = CandidateRouteHop::PublicHop(PublicHopCandidate { info: dir, short_channel_id: c.0 });
+				let (pa, pb) = (a.channel_penalty_msat(&cand, usage, params), b.channel_penalty_msat(&cand, usage, params));
+				res.queries += 1;
+				if pa != 0 {
+					res.nonzero_penalties += 1;
+				}
+				if pa != pb {
+					return Err(fail("scorer-answers", "scorer-answers/penalty".into(), format!("{}: channel_penalty_msat(scid {}, amount {}, inflight {}) = {} (original) vs {} (re-read)", what, c.0, q.amount_msat, q.inflight_msat, pa, pb)));
+				}
+			}
+			Ok(())
+		};
+		// The scorer keeps the time of its last update as a stand-in for the current time (only used by the
+		// probing-diversity penalty) and does not persist it; the re-read scorer starts from the newest
+		// per-channel update time. So the immediate comparison runs without that penalty, and the full
+		// parameter set is compared after both received the same further updates (which re-establish the time).
+		battery(&scorer, &reread, &fee.build(false), "right after the round trip", &mut res)?;
+		for op in tail.iter().chain(std::iter::once(&ScoreOp::TimePassed { dt: 1 })) {
+			apply(&mut scorer, op, &mut now.clone());
+			apply(&mut reread, op, &mut now);
+		}
+		battery(&scorer, &reread, &fee.build(true), "after the same further updates", &mut res)?;
+		let (e1, e2) = (canonical_scorer_bytes(&scorer.encode()), canonical_scorer_bytes(&reread.encode()));
+		if e1 != e2 {
+			return Err(fail("scorer-reencode", "scorer-diverged-after-updates".into(), "original and re-read scorer encode differently after the same further updates".to_string()));
+		}
+		Ok(res)
+	}
+
+	/// NetworkGraph oracle: write -> read gives an equal graph (library `==`, rapid-sync timestamp, same bytes up
+	/// to map order, re-read again equal).
+	pub fn graph_oracle(g: &Graph, logger: &'static TestLogger) -> CaseResult {
+		let b1 = g.encode();
+		let mut r = &b1[..];
+		let g2 = Graph::read(&mut r, logger).map_err(|e| fail("graph-read", "graph-read".into(), format!("{:?}", e)))?;
+		if !r.is_empty() {
+			return Err(fail("graph-read", "graph-read/trailing".into(), format!("{} bytes unread", r.len())));
+		}
+		if g2 != *g {
+			return Err(fail("graph-roundtrip-eq", "graph-roundtrip-eq".into(), "read(write(g)) != g".to_string()));
+		}
+		if g2.get_last_rapid_gossip_sync_timestamp() != g.get_last_rapid_gossip_sync_timestamp() {
+			return Err(fail("graph-roundtrip-eq", "graph-roundtrip-eq/rgs-timestamp".into(), format!("{:?} vs {:?}", g2.get_last_rapid_gossip_sync_timestamp(), g.get_last_rapid_gossip_sync_timestamp())));
+		}
+		let b2 = g2.encode();
+		if !same_bytes_modulo_order(&b1, &b2) {
+			return Err(fail("graph-reencode", "graph-reencode".into(), format!("write(read(write(g))): {} vs {} bytes", b2.len(), b1.len())));
+		}
+		Ok(())
+	}
+}
